@@ -104,7 +104,7 @@ def build_harness(prop):
             with open(ov, "w") as f:
                 json.dump({"Replace": overlay_files(scope)}, f, indent=1)
             out = os.path.join(WORK, "restic-verif-%s" % tag)
-            cmd = ["go", "build", "-trimpath", "-tags", "verif", "-overlay", ov, "-o", out, "./cmd/restic"]
+            cmd = ["go", "build", "-p", "4", "-trimpath", "-tags", "verif", "-overlay", ov, "-o", out, "./cmd/restic"]
             t0 = time.time()
             p = subprocess.run(cmd, cwd=REPO, env=GOENV, stdout=subprocess.PIPE, stderr=subprocess.STDOUT, text=True, timeout=1500)
             logs.append("$ %s  (%.1fs, rc=%d)\n%s" % (" ".join(cmd), time.time() - t0, p.returncode, p.stdout[-4000:]))
